@@ -16,6 +16,7 @@ import ast
 
 from .pysrc import dotted
 
+STOP_AT = {"content_children"}  # named populations that rules refer to as such (not followed into their definition)
 ORDER_ONLY = {"sorted", "list", "tuple", "reversed", "iter", "enumerate"}
 
 
@@ -94,6 +95,15 @@ def source_of(fnode, expr, prog=None, func=None, depth=0, out=None):
         b = _binding(fnode, expr.id)
         if b is not None:
             return source_of(fnode, b, prog, func, depth + 1, out)
+    # a property of the same class whose body is one returned iterable (`self.paragraphs` -> tuple(P(p) for p in self._txBody.p_lst))
+    if prog is not None and func is not None and func.cls is not None and isinstance(expr, ast.Attribute) and dotted(expr.value) == "self" \
+            and expr.attr not in STOP_AT:
+        g = prog.lookup(func.cls, expr.attr)
+        if g is not None and g.module.name.startswith("pptx") and any(
+                (dotted(d) or "").split(".")[-1] in ("property", "lazyproperty") for d in g.node.decorator_list):
+            r = _single_return(g.node)
+            if isinstance(r, (ast.GeneratorExp, ast.ListComp)) or (isinstance(r, ast.Call) and dotted(r.func) in ORDER_ONLY | {"tuple", "list"}):
+                return source_of(g.node, r, prog, g, depth + 1, out)
     out["terminal"] = ast.unparse(expr)
     return out
 
